@@ -181,7 +181,8 @@ def main():
     R.coverage["rule"] = ("one evaluation = one in-process ceremony (all n nodes run concurrently): FROST through dkg.runFrostParallel over an in-memory transport, "
                           "FROST over the real frostP2P transport with controlled order and multiplicity of deliveries, Pedersen through pedersen.RunDKG (also as a second ceremony on the same hosts with a straggler message of the abandoned session), "
                           "or a full dkg.Run scenario (plain / add-validators, with tolerated stray artefact siblings of an earlier ceremony in some data dirs, or with per-node keymanagers that are healthy / answer 500 / hang) whose artefacts (disk or keymanager) are checked; "
-                          "FROST over the real transport with ONE faulty participant (threshold +-1, extra / missing commitment, wrong ValIdx / SourceID / TargetID, share sent to the wrong target, shares of two validators exchanged), "
+                          "FROST over the real transport with ONE faulty participant (threshold +-1, extra / missing commitment, wrong ValIdx / SourceID / TargetID, share sent to the wrong target, shares of two validators exchanged; one round-1 payload carrying at position k >= 1 a cast that claims another member's or a non-member's source id, delivered before / after that member's genuine cast, "
+                          "with an attribution monitor on every node's Round1 result: a cast held under source s is the one s broadcast), "
                           "Pedersen with scripted faulty dealers (1 or 2 dealers deal an undecryptable share: complaint + justification must recover) and with lost deal / response / justification bundles (lossy stream wrapper); "
                           "plus one evaluation per direct call of dkg/share.MsgFromShare (share index map -> published list: dense index sets 1..n for every n = 1..40, sparse sets, large indices; position i-1 of the published list must hold the public share of index i); "
                           "non-trivial = the ceremony completed on all nodes (then all group-side checks and the Coq polynomial check ran on its outputs) or it ran with an injected fault (then it must fail or complete consistently); "
